@@ -452,6 +452,98 @@ func c07Burst(c *core.Ctx, idx int) {
 	c.NonTrivial(src, []byte(ver))
 }
 
+// c07Truncate: the malformed part is a program cut off behind one of its tokens (a file truncated in the middle
+// of any construct). Whether a tree is returned is the parser's choice; if one is returned together with the
+// errors, the top-level statements that are complete in the remaining text and precede the statement that was
+// cut must be the first statements of the returned root, identical to the clean parse (tokens, positions), and
+// the tree must print as a sub-sequence of the source.
+func c07Truncate(c *core.Ctx, idx int) {
+	r := core.NewRand(c.P.Seed, "C07cut", idx)
+	fam := 7
+	if r.Chance(2, 5) {
+		fam = 5
+	}
+	g := gen.NewG(r.Split("prog"), gen.Opts{Fam: fam, NoHTML: true, MaxDepth: r.Range(2, 4), MaxStmts: 6})
+	root := g.Program()
+	ver := progVersion(r, fam, false)
+	if root.HasFlag(gen.FFlex73) {
+		ver = "7.4"
+	}
+	toks := root.Tokens()
+	clean := gen.Render(toks, gen.LayCanon, r, nil)
+	cp := obs.Parse(clean, ver, true)
+	if cp.Panic != nil || len(cp.Errors) > 0 || cp.Root == nil || len(toks) < 4 {
+		c.Inconclusive("clean program not accepted (C03's business)")
+		return
+	}
+	var top []ast.Vertex
+	for _, f := range obs.Fields(cp.Root) {
+		if f.Name == "Stmts" {
+			top = f.Nodes
+		}
+	}
+	for k, tries := 0, c.P.Pick(4, 12); k < tries; k++ {
+		j := r.Range(2, len(toks)-1)
+		cut := gen.Render(toks[:j], gen.LayCanon, r, nil)
+		if len(cut) > len(clean) || string(clean[:len(cut)]) != string(cut) {
+			core.Fail("C07: canonical rendering is not prefix-stable")
+		}
+		c.Inflight(cut, "C07 truncated "+ver)
+		bp := obs.Parse(cut, ver, true)
+		c.Add("truncation_cases", 1)
+		if bp.Panic != nil {
+			c.Add("parses_that_panicked(C01's business)", 1)
+			continue
+		}
+		if len(bp.Errors) == 0 {
+			c.Add("truncations_that_are_valid_programs", 1)
+			continue
+		}
+		if bp.Root == nil {
+			c.Add("truncations_without_tree", 1)
+			continue
+		}
+		c.Add("truncations_with_tree", 1)
+		// complete preceding statements: those that end inside the remaining text and are followed by another
+		// top-level statement that starts inside it too (the last contained one may be what the cut tail extends)
+		pre := 0
+		for q, st := range top {
+			_, e := nodeSpan(st)
+			if e < 0 || e > len(cut) || q+1 >= len(top) {
+				break
+			}
+			if s2, _ := nodeSpan(top[q+1]); s2 < 0 || s2 >= len(cut) {
+				break
+			}
+			pre = q + 1
+		}
+		var got []ast.Vertex
+		for _, f := range obs.Fields(bp.Root) {
+			if f.Name == "Stmts" {
+				got = f.Nodes
+			}
+		}
+		w := core.W(cut, ver).With("cut_behind_token", fmt.Sprint(j)).With("complete_preceding_top_level_statements", fmt.Sprint(pre))
+		sig := fmt.Sprintf("recovery|fam%d|truncated|", fam)
+		if len(got) < pre {
+			c.Violation(sig+"preceding-lost", fmt.Sprintf("%d complete top-level statements precede the statement that was cut off, the returned root has only %d statements", pre, len(got)), w)
+			return
+		}
+		for q := 0; q < pre; q++ {
+			a, b := obs.Fingerprint(top[q], false), obs.Fingerprint(got[q], false)
+			if a != b {
+				c.Violation(sig+"preceding-changed|"+obs.Kind(top[q]), fmt.Sprintf("top-level statement #%d before the cut differs from the clean parse: %s", q, obs.FirstDiff(a, b)), w)
+				return
+			}
+		}
+		c.Add("preceding_statements_compared", int64(pre))
+		if !checkProvenance(c, bp.Root, cut, ver) {
+			return
+		}
+	}
+	c.NonTrivial(clean, []byte(ver), []byte("cut"))
+}
+
 func c07Hostile(c *core.Ctx, src []byte, ver string) {
 	c.Inflight(src, "C07 parse "+ver)
 	pr := obs.Parse(src, ver, true)
@@ -466,7 +558,7 @@ func c07Hostile(c *core.Ctx, src []byte, ver string) {
 func init() {
 	core.Register(&core.Check{
 		ID:   "C07",
-		Rule: "cases = known-finding witnesses ++ alternately (a) a generated valid PHP-mode program with 4 (quick) / 12 (thorough) independent insertions of a benign malformed statement (17 shapes such as ') ;', '$x = ;', 'foo( ;') at a PRNG statement boundary of a PRNG statement list, compared with the clean parse, (a') 2..90 well-formed statement texts joined into one list (top level or function body) with a benign malformed statement behind a PRNG subset or all of them: every well-formed statement must be found again in order, and (b) a hostile G3 input whose parse returns a tree together with errors, printed through the provenance writer; non-trivial = recovery program whose insertions were all compared / hostile tree printed; distinct by (clean text, version) / (input, version)",
+		Rule: "cases = known-finding witnesses ++ alternately (a) a generated valid PHP-mode program with 4 (quick) / 12 (thorough) independent insertions of a benign malformed statement (17 shapes such as ') ;', '$x = ;', 'foo( ;') at a PRNG statement boundary of a PRNG statement list, compared with the clean parse, (a') 2..90 well-formed statement texts joined into one list (top level or function body) with a benign malformed statement behind a PRNG subset or all of them: every well-formed statement must be found again in order, (a'') a generated program cut off behind a PRNG token: if a tree is returned, the complete top-level statements before the cut statement are its first statements, identical to the clean parse, and (b) a hostile G3 input whose parse returns a tree together with errors, printed through the provenance writer; non-trivial = recovery program whose insertions were all compared / hostile tree printed; distinct by (clean text, version) / (input, version)",
 		Assumptions: []string{
 			"benign malformed statements cannot extend the preceding statement nor start a valid one and end in ';'",
 			"printer glue = '<?php ', one blank, '?>'; every other chunk must alias the source buffer (token values are slices of it)",
@@ -480,6 +572,10 @@ func init() {
 			}
 			if idx%8 == 3 {
 				c07Burst(c, idx)
+				return
+			}
+			if idx%8 == 5 {
+				c07Truncate(c, idx)
 				return
 			}
 			pc := genParseCase(c.P.Seed, "C07h", idx, 90)
